@@ -471,6 +471,46 @@ func (g *gen) collision(headTime uint64, burn uint32) (coin.UxArray, request) {
 	return coin.UxArray{ux}, request{p, label}
 }
 
+// the boundary of the extra-input rule: no change coins, change hours around the
+// additional fee the cheapest remaining output would cost
+func (g *gen) extraBoundary(headTime uint64, burn uint32) (coin.UxArray, request) {
+	r := g.r
+	mk := func(coins, hours uint64, owner int) coin.UxOut {
+		var ux coin.UxOut
+		ux.Body.Address = g.addrs[owner]
+		ux.Body.Coins = coins
+		ux.Body.Hours = hours
+		ux.Head.Time = headTime
+		ux.Head.BkSeq = 1 + r.U64()%100
+		copy(ux.Body.SrcTransaction[:], r.Bytes(32))
+		return ux
+	}
+	h1 := uint64(50 + r.Intn(450))
+	h2 := uint64(1 + r.Intn(60))
+	a := mk(uint64(5+r.Intn(5))*1e6, h1, 0)
+	b := mk(uint64(1+r.Intn(3))*1e6, h2, 1)
+	uxa := coin.UxArray{a, b}
+	if r.Bool() { // a third output with more hours than b: not the one chosen as extra
+		uxa = append(uxa, mk(1e6, h2+1+uint64(r.Intn(50)), 2))
+	}
+	add := fee.RequiredFee(h1+h2, burn) - fee.RequiredFee(h1, burn)
+	rem := fee.RemainingHours(h1, burn)
+	ch := int64(add) + int64(r.Intn(3)) - 1
+	if ch < 0 {
+		ch = 0
+	}
+	if uint64(ch) > rem {
+		ch = int64(rem)
+	}
+	var p transaction.Params
+	p.HoursSelection.Type = transaction.HoursSelectionTypeManual
+	p.To = []coin.TransactionOutput{{Address: g.addrs[5], Coins: a.Body.Coins, Hours: rem - uint64(ch)}}
+	if r.Bool() {
+		p.ChangeAddress = &g.addrs[6]
+	}
+	return uxa, request{p, fmt.Sprintf("extra-boundary,d=%d", ch-int64(add))}
+}
+
 func shareND(d *decimal.Decimal) (string, string) {
 	coef := d.Coefficient()
 	exp := d.Exponent()
@@ -540,8 +580,10 @@ func run(args []string) error {
 	for i := 0; i < n; i++ {
 		var uxa coin.UxArray
 		var rq request
-		if r.Chance(6) {
+		if c := r.Intn(100); c < 6 {
 			uxa, rq = g.collision(headTime, burn)
+		} else if c < 11 {
+			uxa, rq = g.extraBoundary(headTime, burn)
 		} else {
 			uxa = g.wallet(headTime)
 			uxb0, err := transaction.NewUxBalances(uxa, headTime)
